@@ -177,6 +177,9 @@ func runCheck(id string, o opts) (code int) {
 		}()
 		pd.run(w, r)
 	}()
+	if o.tier == "thorough" && len(o.edits) == 0 && !o.noEmit {
+		thoroughSelftest(id, o.repo, r)
+	}
 	if o.only != "" {
 		var keep []*Ob
 		for _, ob := range r.Obs {
